@@ -3,9 +3,9 @@ import re
 from sa.terms import mk, ZERO, ONE, TRUE, FALSE, show, walk, map_term, num
 from .common import engine, inventory, plain_iteration, selected_iteration
 
-LEVEL = 'necessary-conditions'
+LEVEL = 'other'
 MANIFEST = {
-    'category': 'lint',
+    'category': 'other',
     'engine': 'svn',
     'technique': ('symbolic value numbering of one iteration of the advance loop of TrainDisp::advance (loop-carried state widened): '
                   'the time and offset terms written into authorities are rewritten with named sub-terms (current node, last '
